@@ -776,12 +776,32 @@ class LibMixin:
             mod = _load.get_module(obj.py[1])
             lit = mod.consts.get(obj.py[2])
             if isinstance(lit, ast.Dict):
-                for k, v in zip(lit.keys, lit.values):
-                    kn = k.id if isinstance(k, ast.Name) else (k.attr if isinstance(k, ast.Attribute) else None)
-                    if kn == key.name:
-                        return [(st, VConst(("table-value", obj.py[2], ast.unparse(v))))]
+                hit = self.class_table_lookup(mod, lit, key)
+                if hit is not None:
+                    return [(st, hit)]
                 return [self.raised(st, "KeyError", key.name)]
         raise Unsupported(f"subscript of {type(obj).__name__}")
+
+    def class_table_lookup(self, mod, lit, key):
+        """value of a module-level dict literal keyed by classes, for a class key (or None)"""
+        for k, v in zip(lit.keys, lit.values):
+            kn = k.id if isinstance(k, ast.Name) else (k.attr if isinstance(k, ast.Attribute) else None)
+            if kn == key.name:
+                return self.module_expr(mod, v)
+        return None
+
+    def module_expr(self, mod, node):
+        """a constant-like expression in a module's top-level scope: names, constants, tuples"""
+        if isinstance(node, ast.Constant):
+            return const(node.value)
+        if isinstance(node, ast.Name):
+            r = self.module_name(mod, node.id)
+            if r is None:
+                raise Unsupported(f"module-level name {node.id}")
+            return r
+        if isinstance(node, ast.Tuple):
+            return VTuple(tuple(self.module_expr(mod, e) for e in node.elts))
+        return VConst(("table-value", ast.unparse(node)))
 
     def seq_index(self, st, seq, key):
         kt = self.num_term(key)
